@@ -523,6 +523,8 @@ func impl(c Case) string {
 			return strconv.FormatInt(xmath.Abs(x), 10)
 		case "clamp":
 			return strconv.Itoa(xmath.Clamp(atoi(a[0]), atoi(a[1]), atoi(a[2])))
+		case "extras":
+			return "n/a"
 		case "withstack":
 			return showErr(xerrors.WithStack(buildErr(a[0])))
 		case "wsws":
@@ -685,6 +687,13 @@ func (r *runner) batch(cs []Case) {
 			r.res.Fail(vlib.Failure{Source: "monitor", Kind: k, Params: params, What: what, Case: small})
 		}
 	}
+	var withModel []Case
+	for _, c := range cs {
+		if c.Fn != "extras" {
+			withModel = append(withModel, c)
+		}
+	}
+	cs = withModel
 	mo := r.modelOut(cs)
 	if mo == nil {
 		return
@@ -774,7 +783,7 @@ func randErr(r *vlib.Rand) string {
 
 var fnNames = []string{"chunk", "removeunordered", "reverse", "partition", "unique", "uniqueinplace", "runs", "shrink",
 	"search", "lesscompare", "merge", "mergeslices", "mink", "union", "intersection", "intersects", "difference",
-	"mapreverse", "reversesingle", "toindex", "fromkv", "abs", "clamp", "withstack", "wsws", "wsunwrap", "unwrap", "is", "wsis", "as", "wsas"}
+	"mapreverse", "reversesingle", "toindex", "fromkv", "abs", "clamp", "extras", "withstack", "wsws", "wsunwrap", "unwrap", "is", "wsis", "as", "wsas"}
 
 func genCase(r *vlib.Rand, fn string, big bool) Case {
 	I := strconv.Itoa
@@ -881,6 +890,12 @@ func genCase(r *vlib.Rand, fn string, big bool) Case {
 		return Case{fn, []string{I(w), strconv.FormatInt(xs[r.Intn(len(xs))], 10)}}
 	case "clamp":
 		return Case{fn, []string{I(r.Range(-9, 9)), I(r.Range(-9, 9)), I(r.Range(-9, 9))}}
+	case "extras":
+		hi := 9
+		if r.Chance(1, 2) {
+			hi = 3
+		}
+		return Case{fn, []string{encList(randList(r, n, 1, hi)), I(r.Range(-3, 12)), I(r.Range(-3, 12)), encList(randTable(r, r.Range(1, 5), 2))}}
 	case "withstack", "wsws", "wsunwrap", "unwrap":
 		return Case{fn, []string{randErr(r)}}
 	case "is", "wsis":
@@ -967,6 +982,8 @@ func exhaustive(run *runner, maxLen int, deadline time.Time) bool {
 		add(Case{"toindex", []string{el}})
 		for _, p := range preds {
 			add(Case{"partition", []string{el, p}})
+			add(Case{"extras", []string{el, I(n % 4), I(n + 1), p}})
+			add(Case{"extras", []string{el, I(3), I(-1), p}})
 		}
 		for _, cl := range classes {
 			add(Case{"runs", []string{el, cl}})
@@ -1150,7 +1167,7 @@ func parseCase(line string) (Case, bool) {
 
 func main() {
 	env := vlib.GetEnv()
-	res := vlib.NewResult("C19", "one case = one call of one helper (31 sub-commands over xslices, xsort, xmaps, xmath, xerrors); "+
+	res := vlib.NewResult("C19", "one case = one call of one helper (31 sub-commands over xslices, xsort, xmaps, xmath, xerrors; extras = the 40 thin wrappers / one-line combinators checked by monitors only); "+
 		"random cases with lengths 0..1000, arguments in [-2, len+2], orders with ties (key = x/c, optionally reversed), predicate and "+
 		"equivalence-class tables, error chains incl. already wrapped / fmt.Errorf(%w) / non-comparable leaves; plus the corpus; "+
 		"non-trivial = the arguments hold at least 3 list elements / chain links (always for abs, clamp, chunk, shrink); distinct = different protocol line. "+
